@@ -2,9 +2,9 @@
 import math
 
 from vf import gen, ref
-from vf.core import exc_desc
+from vf.core import call, exc_desc
 from vf.lazy import ck, libx, common
-from vf.monitors import algos
+from vf.monitors import algos, large
 
 PROP = "C04"
 TECHNIQUE = ("runtime monitoring: raw KEMENY_SCORE feature and Consensus.kemeny_score of every returned consensus compared with the reference score of every returned ranking (statement's 1e-6), shared algorithm objects, near-tie and large-score workloads")
@@ -29,10 +29,13 @@ def _plan(tier, seed):
     if tier == "quick":
         return ([{"n_cases": 150, "mode": "A", "hashseed": i % 2} for i in range(6)] +
                 [{"n_cases": 28, "mode": "AD", "hashseed": i % 2} for i in range(3)] +
-                [{"n_cases": 80, "mode": "B"}])
+                [{"n_cases": 80, "mode": "B"}] + [{"n_cases": 2, "mode": "A", "params": {"xlarge": prof}, "hashseed": i % 2}
+                                               for i, prof in enumerate(["heavy", "wide", "tall", "cells"])])
     return ([{"n_cases": 1500, "mode": "A", "hashseed": i % 4} for i in range(10)] +
             [{"n_cases": 250, "mode": "AD", "hashseed": i % 4} for i in range(6)] +
-            [{"n_cases": 1000, "mode": "B", "hashseed": i} for i in range(2)])
+            [{"n_cases": 1000, "mode": "B", "hashseed": i} for i in range(2)] +
+            [{"n_cases": 10, "mode": "A", "params": {"xlarge": prof}, "hashseed": i}
+             for i, prof in enumerate(["heavy", "wide", "tall", "cells"])])
 
 def plan(tier, seed):
     """+ one shard running the repository's own tests under the monitors (vf/pytest_plugin.py)"""
@@ -43,6 +46,10 @@ def plan(tier, seed):
 
 
 def gen_case(rng, ctx):
+    if ctx.params.get("xlarge"):
+        case = large.gen_large(rng, profiles=[ctx.params["xlarge"]])
+        case["dcls"] = "xlarge"
+        return case
     if "D" not in ctx.mode and rng.random() < (0.004 if ctx.tier == "quick" else 0.002):
         # large scores (1e4 .. 1e5): many permutations of many elements under unit penalties -- relative tolerances,
         # float accumulation in the local search and int32 positions are only visible here
@@ -87,13 +94,14 @@ def real(x):
 
 
 def check_case(case, ctx):
+    if case.get("dcls") == "xlarge":
+        return check_xlarge(case, ctx)
     ds, sch = case["ds"], case["scheme"]
     common.set_case(ctx, case)
     dataset = libx.mk_dataset(ds)
     scheme = libx.mk_scheme(sch)
     exact = gen.is_dyadic(sch)
-    n = len(ref.universe(ds))
-    F = ck.ConsensusFeature
+    uni = ref.universe(ds)
     for cfg in case["configs"]:
         for one in (True, False):
             libseed = case["libseed"]
@@ -103,69 +111,116 @@ def check_case(case, ctx):
             if st != "ok":
                 ctx.count("not_returned")      # C03 / C14 judge refusals and failures
                 continue
-            ctx.count("consensuses")
             if case.get("dcls") == "large":
                 ctx.count("large_score_consensuses")
-            fam = family(cfg)
-            try:
-                rankings = [libx.raw_ranking(r) for r in cons.consensus_rankings]
-            except Exception:      # pylint: disable=broad-except
-                ctx.count("unreadable_consensus")
-                continue
-            uni = ref.universe(ds)
-            if not rankings or not all(common.wellformed_raw(r, uni) for r in rankings):
-                ctx.count("ill_formed_consensus_left_to_C03")
-                continue
-            trues = [ref.kemeny(r, ds, sch) for r in rankings]
-            if len(rankings) >= 2:
-                ctx.count("multi_ranking_consensuses")
-            ctx.count("judged:" + fam)
-            if cfg == "Pulp" and trues[0] == 0:
-                ctx.count("zero_objective_pulp")
-            raw = cons.features.get(F.KEMENY_SCORE) if isinstance(cons.features, dict) else None
-            supplied = not (isinstance(raw, (int, float)) and raw == -1)
-            if supplied:
-                ctx.count("supplied_scores")
-                ctx.count("supplied:" + fam)
-                if raw is None or real(raw) is None:
-                    ctx.violation(f"C04/supplied-score-absent:{fam}", f"{cfg} (at_most_one={one}) stored {raw!r} as "
-                                  "the Kemeny score of its consensus", sub, observed=repr(raw), expected=trues[0])
-                elif not within(raw, trues[0], exact):
-                    ctx.violation(f"C04/supplied-score-wrong:{fam}", f"{cfg} (at_most_one={one}) supplied a score that "
-                                  "is not the true score of its first ranking", sub, observed=raw, expected=trues[0])
-            try:
-                reported = cons.kemeny_score
-            except Exception as exc:      # pylint: disable=broad-except
-                ctx.violation(f"C04/kemeny-score-raises:{fam}", f"{cfg}: reading kemeny_score raised {exc_desc(exc)}",
-                              sub, observed=type(exc).__name__, expected=trues[0])
-                continue
-            rv = real(reported)
-            if reported is None or rv is None:
-                ctx.violation(f"C04/score-absent:{fam}", f"{cfg} (at_most_one={one}): kemeny_score is {reported!r}", sub,
-                              observed=repr(reported), expected=trues[0])
-                continue
-            if rv < (0 if exact else -1e-6):
-                ctx.violation(f"C04/score-negative:{fam}", f"{cfg} (at_most_one={one}): kemeny_score is {reported!r}",
-                              sub, observed=reported, expected=trues[0])
-                continue
-            for k, t in enumerate(trues):
-                if not within(reported, t, exact):
-                    sig = f"C04/reported-score-wrong:{fam}" if k == 0 else f"C04/returned-rankings-differ-in-score:{fam}"
-                    ctx.violation(sig, f"{cfg} (at_most_one={one}): reported score is not the true score of returned "
-                                  f"ranking #{k} {rankings[k]}", sub, observed=reported, expected=t)
-                    break
-            if n >= 3 and trues[0] > 0:
-                ctx.nontrivial(sub)
-                ctx.sample({**sub, "returned": rankings[:3], "reported": rv, "true": [float(t) for t in trues[:3]]},
-                           key=fam)
+            judge(ctx, cfg, one, cons, sub, lambda r: ref.kemeny(r, ds, sch), lambda r: common.wellformed_raw(r, uni), exact,
+                  len(uni))
             # scrambled id order in departure rankings (BioConsert): some lower id placed after a higher id
-            if fam in ("BioConsert", "BioCo"):
+            if family(cfg) in ("BioConsert", "BioCo"):
                 ids = {e.value: i for e, i in dataset.mapping_elem_id.items()}
                 for r in ref.unify(ds):
                     pos = ref.bucket_index(r)
                     if any(ids[x] < ids[y] and pos[x] > pos[y] for x in pos for y in pos):
                         ctx.count("bioconsert_departure_scrambled")
                         break
+    # history: the Dataset object that the algorithms have just used is mutated in place (or a dataset derived from it is),
+    # then aggregated again by the same algorithm objects: the score reported then is about the rankings it holds now
+    if len(uni) >= 2 and case.get("dcls") != "large":
+        import random
+        r2 = random.Random(case["libseed"])
+        kind, ok = algos.mutate_in_place(dataset, ds, r2)
+        st_now, now = call(libx.raw_dataset, dataset)
+        if ok and st_now == "ok" and ref.universe(now):
+            uni_now = ref.universe(now)
+            ctx.count("history:" + kind)
+            for cfg in (["BioConsert", "BioCo"] + case["configs"])[:4]:
+                one = r2.random() < 0.5
+                sub = {"ds": now, "scheme": sch, "configs": [cfg], "one": one, "libseed": case["libseed"], "after": kind,
+                       "original_ds": ds}
+                st, cons, _ = algos.run_config(cfg, dataset, scheme, one, case["libseed"])
+                ctx.unit()
+                if st != "ok":
+                    continue
+                ctx.count("consensuses_after_in_place_mutation")
+                judge(ctx, cfg, one, cons, sub, lambda r: ref.kemeny(r, now, sch), lambda r: common.wellformed_raw(r, uni_now),
+                      exact, len(uni_now), tag=":after-in-place-mutation")
+
+
+def check_xlarge(case, ctx):
+    """size classes of vf/monitors/large.py: the reported score against the vectorised reference"""
+    lc = large.Context(case)
+    common.set_case(ctx, large.slim(case))
+    ctx.count("xlarge:" + case["profile"])
+    for cfg in large.configs_for(case, case["libseed"]):
+        one = case["libseed"] % 2 == 0
+        sub = large.slim(case, configs=[cfg], one=one, libseed=case["libseed"])
+        st, cons = large.run(cfg, lc, one, case["libseed"])
+        ctx.unit()
+        if st != "ok":
+            ctx.count("not_returned")
+            continue
+        ctx.count("xlarge_consensuses")
+        if judge(ctx, cfg, one, cons, sub, lc.score, lc.wellformed, True, case["n"], tag=":large") and \
+                case["profile"] == "heavy":
+            ctx.count("xlarge_scores_above_2^31/1000", int(lc.score(libx.raw_ranking(cons.consensus_rankings[0])) > 2 ** 31 / 1000))
+
+
+def judge(ctx, cfg, one, cons, sub, score_fn, wellformed_fn, exact, n, tag=""):
+    """the reported / supplied score of one consensus against the true score of each of its rankings; True if judged"""
+    F = ck.ConsensusFeature
+    ctx.count("consensuses")
+    fam = family(cfg)
+    try:
+        rankings = [libx.raw_ranking(r) for r in cons.consensus_rankings]
+    except Exception:      # pylint: disable=broad-except
+        ctx.count("unreadable_consensus")
+        return False
+    if not rankings or not all(wellformed_fn(r) for r in rankings):
+        ctx.count("ill_formed_consensus_left_to_C03")
+        return False
+    trues = [score_fn(r) for r in rankings]
+    if len(rankings) >= 2:
+        ctx.count("multi_ranking_consensuses")
+    ctx.count("judged:" + fam)
+    if cfg == "Pulp" and trues[0] == 0:
+        ctx.count("zero_objective_pulp")
+    raw = cons.features.get(F.KEMENY_SCORE) if isinstance(cons.features, dict) else None
+    supplied = not (isinstance(raw, (int, float)) and raw == -1)
+    if supplied:
+        ctx.count("supplied_scores")
+        ctx.count("supplied:" + fam)
+        if raw is None or real(raw) is None:
+            ctx.violation(f"C04/supplied-score-absent:{fam}", f"{cfg} (at_most_one={one}) stored {raw!r} as "
+                          "the Kemeny score of its consensus", sub, observed=repr(raw), expected=trues[0])
+        elif not within(raw, trues[0], exact):
+            ctx.violation(f"C04/supplied-score-wrong:{fam}{tag}", f"{cfg} (at_most_one={one}) supplied a score that "
+                          "is not the true score of its first ranking", sub, observed=raw, expected=trues[0])
+    try:
+        reported = cons.kemeny_score
+    except Exception as exc:      # pylint: disable=broad-except
+        ctx.violation(f"C04/kemeny-score-raises:{fam}", f"{cfg}: reading kemeny_score raised {exc_desc(exc)}",
+                      sub, observed=type(exc).__name__, expected=trues[0])
+        return True
+    rv = real(reported)
+    if reported is None or rv is None:
+        ctx.violation(f"C04/score-absent:{fam}", f"{cfg} (at_most_one={one}): kemeny_score is {reported!r}", sub,
+                      observed=repr(reported), expected=trues[0])
+        return True
+    if rv < (0 if exact else -1e-6):
+        ctx.violation(f"C04/score-negative:{fam}", f"{cfg} (at_most_one={one}): kemeny_score is {reported!r}",
+                      sub, observed=reported, expected=trues[0])
+        return True
+    for k, t in enumerate(trues):
+        if not within(reported, t, exact):
+            sig = f"C04/reported-score-wrong:{fam}{tag}" if k == 0 else f"C04/returned-rankings-differ-in-score:{fam}{tag}"
+            ctx.violation(sig, f"{cfg} (at_most_one={one}): reported score is not the true score of returned "
+                          f"ranking #{k} {rankings[k] if n <= 40 else '(large)'}", sub, observed=reported, expected=t)
+            break
+    if n >= 3 and trues[0] > 0:
+        ctx.nontrivial(sub if n <= 40 else {"n": n, "cfg": cfg, "one": one, "d": gen.digest(sub.get("ds"))})
+        if n <= 40:
+            ctx.sample({**sub, "returned": rankings[:3], "reported": rv, "true": [float(t) for t in trues[:3]]}, key=fam)
+    return True
 
 
 def reach(counters, tier, info):
@@ -179,6 +234,16 @@ def reach(counters, tier, info):
                              "bioconsert_departure_scrambled", 300 * k)]:
         v = counters.get(key, 0)
         out.append({"name": name, "observed": v, "required": need, "ok": v >= need})
+    v = counters.get("consensuses_after_in_place_mutation", 0)
+    out.append({"name": "consensuses of a Dataset object mutated in place (or whose derived dataset was) after a first series "
+                "of runs", "observed": v, "required": 600 * k, "ok": v >= 600 * k})
+    v = counters.get("history:remove_empty", 0)
+    out.append({"name": "... where the step is remove_empty_rankings", "observed": v, "required": 30 * k, "ok": v >= 30 * k})
+    v = counters.get("xlarge_consensuses", 0)
+    out.append({"name": "consensuses over 63-1025 elements / 40-257 rankings judged (vectorised reference)", "observed": v,
+                "required": 15, "ok": v >= 15})
+    v = counters.get("xlarge_scores_above_2^31/1000", 0)
+    out.append({"name": "... with a score above 2^31 / 1000", "observed": v, "required": 3, "ok": v >= 3})
     for fam in ("BioConsert", "BioCo", "PickAPerm", "Pulp", "ParCons", "Exact", "Borda", "Copeland", "KwikSort"):
         v = counters.get("judged:" + fam, 0)
         out.append({"name": f"consensuses of {fam} judged", "observed": v, "required": 60 * k, "ok": v >= 60 * k})
